@@ -194,8 +194,17 @@ func (s *scripted) Read(p []byte) (int, error) {
 		ev.D = ""
 	}
 	s.log = append(s.log, ev)
+	if stepErr == "panic" {
+		// a caller-supplied source that panics inside Read (the caller recovers)
+		panic(sourcePanic{})
+	}
 	return n, err
 }
+
+// sourcePanic is what a scripted source panics with: the caller's own fault, recognisable.
+type sourcePanic struct{}
+
+func (sourcePanic) Error() string { return "verif: the scripted source panicked inside Read" }
 
 // helpers -------------------------------------------------------------------
 
@@ -271,7 +280,6 @@ type keptErr struct {
 	i int
 	e error
 }
-
 
 type state struct {
 	arena map[int][]byte
